@@ -410,10 +410,15 @@ Definition rfc_sendable (u : url) (now : Z) (c : rcookie) : bool :=
 Definition rfc_filter (s : rstore) (u : url) (now : Z) : list (str * str) :=
   map (fun c => (r_name c, r_value c)) (filter (rfc_sendable u now) s).
 
-Definition rfc_step (st : rstore * Z) (o : op) : (rstore * Z) * option (list (str * str)) :=
+(* `unsafe` is the jar's configuration: unless it is set, Set-Cookie headers of responses from IP-address
+   hosts are ignored altogether (RFC 6265 5.2: "the user agent MAY ignore the Set-Cookie header") *)
+Definition rfc_set (unsafe : bool) (s : rstore) (u : url) (ms : list morsel) (now : Z) : rstore :=
+  if negb unsafe && is_ip (u_host u) then s else fold_left (rfc_set1 u now) ms s.
+
+Definition rfc_step (unsafe : bool) (st : rstore * Z) (o : op) : (rstore * Z) * option (list (str * str)) :=
   let '(s, now) := st in
   match o with
-  | OSet u ms => ((fold_left (rfc_set1 u now) ms s, now), None)
+  | OSet u ms => ((rfc_set unsafe s u ms now, now), None)
   | OAdvance dt => ((s, (now + Z.of_N dt)%Z), None)
   | OClear => (([], now), None)
   | OClearDomain d => ((filter (fun c => negb (rfc_domain_match d (r_domain c))) s, now), None)
@@ -421,10 +426,10 @@ Definition rfc_step (st : rstore * Z) (o : op) : (rstore * Z) * option (list (st
   | OFilter u => ((s, now), Some (rfc_filter s u now))
   end.
 
-Fixpoint rfc_run (st : rstore * Z) (ops : list op) : (rstore * Z) * list (list (str * str)) :=
+Fixpoint rfc_run (unsafe : bool) (st : rstore * Z) (ops : list op) : (rstore * Z) * list (list (str * str)) :=
   match ops with
   | [] => (st, [])
-  | o :: r => let '(st', out) := rfc_step st o in
-              let '(stf, outs) := rfc_run st' r in
+  | o :: r => let '(st', out) := rfc_step unsafe st o in
+              let '(stf, outs) := rfc_run unsafe st' r in
               (stf, match out with Some d => d :: outs | None => outs end)
   end.
